@@ -297,6 +297,19 @@ def r179(ctx, ut):
         ctx.ob('R17.9', f'Quantity.{prop}', ok, sample=f'{prop} returns {short(rs[0].value) if rs else "-"}')
         if not ok:
             ctx.finding('R17.9', f'Quantity.{prop}', ci, fn, f'{prop} is not `{shapes[0]}`', where=f'Quantity.{prop}')
+    # _val: same-class value built from the SI number alone (no unit argument, no arithmetic), display unit copied from self
+    fn = prog.method('Quantity', '_val', inherited=False)
+    sp = fn.args.args[1].arg
+    builds = [n for n in walk_shallow(fn) if isinstance(n, ast.Call) and unparse(n.func) == 'type(self)']
+    ok_build = len(builds) == 1 and len(builds[0].args) == 1 and not builds[0].keywords and unparse(builds[0].args[0]) == sp
+    keeps = any(isinstance(n, ast.Assign) and isinstance(n.targets[0], ast.Attribute) and n.targets[0].attr == '_unit' and unparse(n.value) == 'self._unit' for n in walk_shallow(fn))
+    arith = [n for n in walk_shallow(fn) if isinstance(n, ast.BinOp)]
+    ok = ok_build and keeps and not arith
+    ctx.ob('R17.9', 'Quantity._val', ok, sample=f'_val: built from the SI value alone {ok_build}; unit copied {keeps}; arithmetic {[short(a) for a in arith]}')
+    if not ok:
+        ctx.finding('R17.9', 'Quantity._val', ci, fn,
+                    '_val (back end of neg, abs, +, -, scalar * and /) must build the result from the SI value without a unit argument and without arithmetic, then copy the '
+                    'display unit: otherwise results depend on the unit factor (round trip si / f * f is not bit-exact)', where='Quantity._val')
     # as_unit: membership guard; copy built from self.si without unit argument; unit set to newunit
     fn = prog.method('Quantity', 'as_unit', inherited=False)
     nu = fn.args.args[1].arg
